@@ -40,6 +40,7 @@ static std::vector<uint32_t> immSet(bool thorough) {
 		16384, 262144, 2097144, 2097152, 0x7FFFF7FF, 0x7FFFF800, 0x7FFFFFFF, 0x80000000u, 0x80000001u, 0xFFFFF7FFu, 0xFFFFF800u, 0xFFFE0000u, 0xFFFFFFC0u, 0xFFFFFFFEu, 0xFFFFFFFFu, 0x12345678, 0xDEADBEEFu, 0x55555555 };
 	if (thorough) {
 		for (int k = 1; k <= 32; ++k) { uint64_t p = 1ull << k; q.push_back((uint32_t)(p - 1)); q.push_back((uint32_t)p); q.push_back((uint32_t)(p + 1)); }
+		for (int k = 2; k <= 31; ++k) { q.push_back((uint32_t)(0xFFFFFFFFull << k)); q.push_back((uint32_t)((0xFFFFFFFFull << k) - 1)); }   // -2^k, -2^k-1
 		for (uint32_t v : { 12u, 14u, 62u, 65u, 0x1F7FFu, 0xFFFDFFFFu, 16376u, 16392u, 262136u, 262152u, 2097160u, 3234567890u, 0xAAAAAAAAu, 0x80000800u, 0x800007FFu, 0x7FFFEFFFu, 0x7FFFF000u, 0xFFFFE000u, 0xFFFFDFFFu, 0xFFFC0000u, 0xFFFBFFFFu,
 			0x00FFF800u, 0x00FFF7FFu, 0x0001E800u, 0x0001F000u, 0x00020800u, 0xFFFE0800u, 0xFFFDF800u, 0x00001800u, 0x000017FFu, 0xFFFFEFFFu, 0xFFFFF000u, 0x40000000u, 0xC0000000u, 0xBFFFFFFFu, 0x001FFFC0u, 0x00200040u, 0x9E3779B9u, 0x01010101u, 0xFEFEFEFEu,
 			100u, 1000u, 10000u, 100000u, 1000000u, 10000000u, 100000000u, 1000000000u, 4000000000u, 0x0000FF00u, 0x00FF0000u, 0xFF000000u, 0x000000FFu, 0x0F0F0F0Fu, 0xF0F0F0F0u, 0x33333333u, 0xCCCCCCCCu, 0x00010001u, 0xFFFEFFFFu,
@@ -94,20 +95,21 @@ static std::vector<uint64_t> alphabet() {
 // ================================================================================================ families
 struct Tier {
 	bool thorough; uint64_t seed; unsigned scale;   // scale > 1: take every scale-th case of the big families (2048-iteration profile)
-	std::vector<uint32_t> immQ, immT; std::vector<unsigned> modQ, modA; std::vector<uint64_t> alpha;
+	std::vector<uint32_t> immQ, immT; std::vector<unsigned> modQ, modA, modOps; std::vector<uint64_t> alpha;
 };
 struct WordSpace {   // opcode x 65 register pairs x mod x imm, imm fastest
-	const std::vector<unsigned>* mods; const std::vector<uint32_t>* imms;
-	uint64_t count() const { return 256ull * 65 * mods->size() * imms->size(); }
+	const std::vector<unsigned>* mods; const std::vector<uint32_t>* imms; const std::vector<unsigned>* opcodes = nullptr;   // opcodes == nullptr: all 256
+	uint64_t count() const { return (opcodes ? (uint64_t)opcodes->size() : 256ull) * 65 * mods->size() * imms->size(); }
 	uint64_t at(uint64_t i) const {
 		uint64_t ni = imms->size(), nm = mods->size();
 		uint32_t imm = (*imms)[i % ni]; i /= ni; unsigned mod = (*mods)[i % nm]; i /= nm; unsigned pair = (unsigned)(i % 65); unsigned opcode = (unsigned)(i / 65);
+		if (opcodes) opcode = (*opcodes)[opcode];
 		unsigned dst, src;
 		if (pair < 64) { dst = pair >> 3; src = pair & 7; } else { dst = 0xF8 | (opcode & 7); src = 0xF8 | ((opcode >> 3) & 7); }
 		return mkWord(opcode, dst, src, mod, imm);
 	}
 };
-static const uint64_t Mult[4] = { 1000003ull, 7368787ull, 15485867ull, 32452843ull };   // primes, coprime to every word-space size (2^k * 5 * 13 * |mods| * |imms| has no such factor)
+static const uint64_t Mult[4] = { 1000003ull, 7368787ull, 15485867ull, 32452843ull };   // primes; bumped until coprime to the word-space size
 
 struct CaseSpec { Case c; std::string family; uint64_t index; bool sampling = false; };
 
@@ -120,7 +122,11 @@ struct Families {
 
 	explicit Families(const Tier& tt) : t(tt) {
 		spaces.push_back(WordSpace{ &t.modQ, &t.immQ });
-		if (t.thorough) { spaces.push_back(WordSpace{ &t.modA, &t.immQ }); spaces.push_back(WordSpace{ &t.modQ, &t.immT }); }
+		if (t.thorough) {
+			spaces.push_back(WordSpace{ &t.modA, &t.immQ });            // a1: all 256 mod values
+			spaces.push_back(WordSpace{ &t.modQ, &t.immT });            // a2: the large imm32 set
+			spaces.push_back(WordSpace{ &t.modA, &t.immT, &t.modOps }); // a3: full mod x imm32 cross for one opcode of every type that reads mod
+		}
 		// (c) saturated programs: the longest encoding of every type (plus a second form for some)
 		satWords = { W(T_IADD_RS, 5, 6, 0x0C, 0x7FFFF7FF), W(T_IADD_M, 0, 1, 0x00, 0x1F7FF), W(T_IADD_M, 3, 3, 0x00, 0x001FF7F8), W(T_ISUB_R, 2, 2, 0, 0x12345678), W(T_ISUB_R, 0, 1, 0, 0), W(T_ISUB_M, 4, 5, 0x01, 0x17FF),
 			W(T_IMUL_R, 6, 6, 0, 0x7FFFF7FF), W(T_IMUL_R, 0, 1, 0, 0), W(T_IMUL_M, 2, 3, 0x00, 0xFFFDF7FFu), W(T_IMULH_R, 0, 1, 0, 0), W(T_IMULH_M, 4, 5, 0x01, 0x17FF), W(T_ISMULH_R, 6, 7, 0, 0), W(T_ISMULH_M, 1, 2, 0x00, 0x1F7FF),
@@ -168,6 +174,7 @@ struct Families {
 			unsigned S = c.size();
 			ctx16(c, (unsigned)((p + packing * 5 + (c.light ? 3 : 0)) % 16), e); fill(c, e);
 			uint64_t mult = packing ? Mult[t.seed % 4] : 1, add = (t.seed * 0x9E3779B97F4A7C15ull) % n;
+			while (std::__gcd(mult, n) != 1) mult += 2;   // the index map must be a permutation of [0, n)
 			for (unsigned s = 0; s < S; ++s) {
 				uint64_t wi = p * S + s; if (wi >= n) break;
 				uint64_t j = (uint64_t)(((unsigned __int128)wi * mult + add) % n);
@@ -413,6 +420,7 @@ int main(int argc, char** argv) {
 	tier.scale = RANDOMX_PROGRAM_ITERATIONS > 64 ? 64 : 1;
 	if (a.opt.count("scale")) tier.scale = (unsigned)atoi(a.get("scale").c_str());
 	tier.immQ = immSet(false); tier.immT = immSet(true); tier.modQ = modSet(false); tier.modA = modSet(true); tier.alpha = alphabet();
+	for (int ty : { T_IADD_RS, T_IADD_M, T_ISUB_M, T_IMUL_M, T_IMULH_M, T_ISMULH_M, T_IXOR_M, T_FADD_M, T_FSUB_M, T_FDIV_M, T_CBRANCH, T_ISTORE }) tier.modOps.push_back((unsigned)firstOpcode[ty]);
 
 	Env env;
 	if (!env.init(true, true)) { fprintf(stderr, "c20: environment setup failed: %s\n", env.error.c_str()); return 2; }
